@@ -467,7 +467,7 @@ func GenEngineScript(r *Rng, o EngineGenOpts, hist map[string]int) []string {
 		inspect()
 		add("close")
 	}
-	if o.MergeHeavy && r.Chance(1, 3) {
+	if (o.MergeHeavy || (o.Merges && o.Restarts)) && r.Chance(1, 3) {
 		// the database is closed while a Merge is in the middle of its scan
 		cm := genCfg(r, o, hist)
 		cm.io = 0
